@@ -8,13 +8,13 @@ ALL = ["C%02d" % i for i in range(1, 21)]
 CHECKS = {
     "C01": dict(
         technique="Hypothesis-generated DSL programs and declare/ensure/solve histories against a reference evaluator with brute-force model enumeration, planted models and planted contradictions",
-        text="Programs are written through the public DSL from typed recursive recipes (every operator, literals on either side, n-ary/empty/constant-only aggregates). SAT answers are checked by evaluating every constraint under the published sol values (types and bounds included); UNSAT answers by exhaustive enumeration of the declared domains (enumerable class) or by construction (phi and its structural negation) on domains up to +-10^6; planted-SAT programs must be found SAT. Histories re-check after every prefix. Exploration: sampled, not exhaustive.",
+        text="Programs are written through the public DSL from typed recursive recipes (every operator, literals on either side, n-ary/empty/constant-only aggregates). SAT answers are checked by evaluating every constraint under the published sol values (types and bounds included); UNSAT answers by exhaustive enumeration of the declared domains (enumerable class) or by construction (phi and its structural negation) on domains up to +-10^6; planted-SAT programs must be found SAT. Histories re-check after every prefix. Exploration: sampled, not exhaustive. Injected fault: on planted-satisfiable Latin-square programs z3 is made to answer unknown (global timeout 1 ms); find_answer may raise or find a checked model but must never return False.",
         note="Trusted base: vlib/gen_expr.rev (40-line evaluator of the recipe with the ordinary meaning), Python itertools enumeration. Only well-typed DSL-built trees; 1-ary SUB excluded. Default backend of the tree (z3 offline). 9/9 sensitivity mutants caught (tools/mutant_table.py).",
         design_ref="3/C01",
     ),
     "C02": dict(
         technique="Hypothesis-generated programs x answer-key subsets x six backend names against the brute-force solution set (reference model); external solvers replaced by an independent stand-in",
-        text="For each generated enumerable program and key subset the full solution set is enumerated; solve() must return True iff it is non-empty and every key's sol must be the common value or None exactly as the set dictates. Both refinement routes: cspuz' own refute-and-resolve loop (z3, sugar incl. a real subprocess) and the native deduction reply (sugar_extended, csugar, enigma_csp, cspuz_core) answered by vlib/fakesolver. A generous solve-count budget (16 + 2 x the summed domain sizes of the keys) turns a non-terminating refinement loop into a deterministic failure. Exploration: sampled programs.",
+        text="For each generated enumerable program and key subset the full solution set is enumerated; solve() must return True iff it is non-empty and every key's sol must be the common value or None exactly as the set dictates. Both refinement routes: cspuz' own refute-and-resolve loop (z3, sugar incl. a real subprocess) and the native deduction reply (sugar_extended, csugar, enigma_csp, cspuz_core) answered by vlib/fakesolver. A generous solve-count budget (16 + 2 x the summed domain sizes of the keys) turns a non-terminating refinement loop into a deterministic failure. Exploration: sampled programs. A closed-form family with 70-170 boolean keys needs about one satisfiable refinement round per key (many-rounds).",
         note="Trusted base: vlib/gen_expr.rev evaluator, brute-force enumeration, vlib/sexp + vlib/fakesolver as a correct external solver (cross-checked against refz3). Real Sugar/csugar/cspuz_core binaries are not available offline. 9/9 sensitivity mutants caught.",
         design_ref="3/C02",
     ),
@@ -59,7 +59,7 @@ CHECKS["C08"] = dict(
 )
 CHECKS["C09"] = dict(
     technique="small-scope exhaustion of all edge subsets of all small multigraphs (projection through an independent solver) against union-find",
-    text="ALL 2^m edge subsets of every loop-free multigraph with n<=4, m<=6 (thorough n<=5) and of drawn multigraphs with n<=6, m<=9 are decided on the posted program and compared with union-find cycle detection (parallel active edges are a cycle); flags also supplied as negated variables / expressions / constants through find_answer. Exhaustive within the scope.",
+    text="ALL 2^m edge subsets of every loop-free multigraph with n<=4, m<=6 (thorough n<=5) and of drawn multigraphs with n<=6, m<=9 are decided on the posted program and compared with union-find cycle detection (parallel active edges are a cycle); flags also supplied as negated variables / expressions / constants through find_answer. Exhaustive within the scope. Long graphs: paths / cycles / stars of 17-45 vertices and grid graphs of 25-49 vertices with winding active edge sets, one pattern per case.",
     note="Trusted base: vlib/graphref.UF, vlib/refz3. 6/6 sensitivity mutants caught.",
     design_ref="3/C09",
 )
@@ -94,7 +94,7 @@ CHECKS["C10"] = dict(
 
 CHECKS["C14"] = dict(
     technique="exhaustive enumeration of all small frames and all coordinates in and around them against an explicit lattice-geometry model",
-    text="Every BoolGridFrame with 0<=h,w<=5 (thorough 8), ids starting at 0 and at an offset: frame[Y,X] for every doubled coordinate in [-2,2h+2]x[-2,2w+2] (segment identity or IndexError: parity, range, negatives), cell_neighbors and vertex_neighbors for every cell/point in and around the frame in both call styles (exact edge sets or IndexError), array shapes and element identity, all_edges == iteration with every segment exactly once, dual() keeps every variable on its geometric segment, dual of dual equals the original accessor by accessor, inner iteration, and the (edge list, graph) that the loop constraints infer pairs each variable with the two lattice points it joins. Exhaustive in the scope; the code has no size-dependent branches beyond it.",
+    text="Every BoolGridFrame with 0<=h,w<=5 (thorough 8), ids starting at 0 and at an offset: frame[Y,X] for every doubled coordinate in [-2,2h+2]x[-2,2w+2] (segment identity or IndexError: parity, range, negatives), cell_neighbors and vertex_neighbors for every cell/point in and around the frame in both call styles (exact edge sets or IndexError), array shapes and element identity, all_edges == iteration with every segment exactly once, dual() keeps every variable on its geometric segment, dual of dual equals the original accessor by accessor, inner iteration, and the (edge list, graph) that the loop constraints infer pairs each variable with the two lattice points it joins. Exhaustive in the scope; the code has no size-dependent branches beyond it. Histories: several frames with sides up to 23 (and their transposes) built and interrogated in one process.",
     note="Trusted base: vlib/lattice (80 lines of geometry). Variable-to-segment mapping by documented construction order. 10/10 sensitivity mutants caught.",
     design_ref="3/C14",
 )
